@@ -12,15 +12,15 @@ namespace Anko
 variable [FOps]
 
 /-! ### helpers preserve `cur` -/
-@[simp] theorem St.fail_cur (s : St) (m : String) : (s.fail m).cur = s.cur := rfl
-@[simp] theorem St.markUnsup_cur (s : St) (m : String) : (s.markUnsup m).cur = s.cur := rfl
-@[simp] theorem outOfFuel_cur (s : St) : (outOfFuel s).cur = s.cur := rfl
-@[simp] theorem St.poll_cur (s : St) : s.poll.2.cur = s.cur := rfl
-@[simp] theorem St.newScope_cur (s : St) (p : Nat) : (s.newScope p).2.cur = s.cur := rfl
-@[simp] theorem St.addClosure_cur (s : St) (c : Closure) : (s.addClosure c).2.cur = s.cur := rfl
-@[simp] theorem St.traceVal_cur (s : St) (v : Val) : (s.traceVal v).cur = s.cur := rfl
+@[local simp] theorem St.fail_cur (s : St) (m : String) : (s.fail m).cur = s.cur := rfl
+@[local simp] theorem St.markUnsup_cur (s : St) (m : String) : (s.markUnsup m).cur = s.cur := rfl
+@[local simp] theorem outOfFuel_cur (s : St) : (outOfFuel s).cur = s.cur := rfl
+@[local simp] theorem St.poll_cur (s : St) : s.poll.2.cur = s.cur := rfl
+@[local simp] theorem St.newScope_cur (s : St) (p : Nat) : (s.newScope p).2.cur = s.cur := rfl
+@[local simp] theorem St.addClosure_cur (s : St) (c : Closure) : (s.addClosure c).2.cur = s.cur := rfl
+@[local simp] theorem St.traceVal_cur (s : St) (v : Val) : (s.traceVal v).cur = s.cur := rfl
 
-@[simp] theorem St.define_cur (s : St) (i : Nat) (n : String) (v : RV) : (s.define i n v).cur = s.cur := by
+@[local simp] theorem St.define_cur (s : St) (i : Nat) (n : String) (v : RV) : (s.define i n v).cur = s.cur := by
   unfold St.define; split <;> rfl
 
 theorem St.setValue_cur (s s' : St) (i : Nat) (n : String) (v : RV) (h : s.setValue i n v = some s') :
@@ -30,22 +30,22 @@ theorem St.setValue_cur (s s' : St) (i : Nat) (n : String) (v : RV) (h : s.setVa
   · injection h with h; subst h; simp
   · cases h
 
-@[simp] theorem St.assign_cur (s : St) (n : String) (v : RV) : (s.assign n v).cur = s.cur := by
+@[local simp] theorem St.assign_cur (s : St) (n : String) (v : RV) : (s.assign n v).cur = s.cur := by
   unfold St.assign
   cases h : s.setValue s.cur n v with
   | some s' => exact St.setValue_cur _ _ _ _ _ h
   | none => simp
 
-@[simp] theorem St.assignIn_cur (s : St) (i : Nat) (n : String) (v : RV) : (s.assignIn i n v).cur = s.cur := by
+@[local simp] theorem St.assignIn_cur (s : St) (i : Nat) (n : String) (v : RV) : (s.assignIn i n v).cur = s.cur := by
   unfold St.assignIn
   cases h : s.setValue i n v with
   | some s' => exact St.setValue_cur _ _ _ _ _ h
   | none => rfl
 
-@[simp] theorem opRes_cur (s : St) (r : OpRes) : (opRes s r).cur = s.cur := by
+@[local simp] theorem opRes_cur (s : St) (r : OpRes) : (opRes s r).cur = s.cur := by
   cases r <;> rfl
 
-@[simp] theorem St.defineAll_cur (l : List (String × RV)) : ∀ (s : St) (i : Nat), (s.defineAll i l).cur = s.cur := by
+@[local simp] theorem St.defineAll_cur (l : List (String × RV)) : ∀ (s : St) (i : Nat), (s.defineAll i l).cur = s.cur := by
   induction l with
   | nil => intro s i; rfl
   | cons x xs ih => intro s i; obtain ⟨n, v⟩ := x; simp [St.defineAll, ih]
@@ -79,11 +79,10 @@ theorem spreadFixed_cur (cal : Callee) (nLead numExprs : Nat) (lead : List RV) (
 
 theorem spreadVariadic_cur (lead : List RV) (s2 : St) : (spreadVariadic lead s2).2.cur = s2.cur := by
   unfold spreadVariadic
-  split
-  · rfl
-  · split <;> simp
+  repeat' split
+  all_goals simp
 
-@[simp] theorem sliceResult_cur (item : Val) (len : Nat) (bi ei : Int) (hc : Bool) (s : St) :
+@[local simp] theorem sliceResult_cur (item : Val) (len : Nat) (bi ei : Int) (hc : Bool) (s : St) :
     (sliceResult item len bi ei hc s).cur = s.cur := by
   unfold sliceResult
   repeat' split
